@@ -2,4 +2,4 @@ Require Extraction.
 Require Import ExtrOcamlBasic.
 From LedgerV Require Import Base.Prelude Base.ExtractHelpers Model.Filter Model.Query.
 Extraction "model_C07.ml" h_add h_mul h_div h_mod h_opp h_ltb h_eqb h_qred h_qmake h_qnum h_qden
-  parse print_expr report_posts begin_pred end_pred pred eval.
+  parse print_expr report_posts report_with begin_pred end_pred pred eval.
